@@ -127,6 +127,8 @@ def gen_rec(rng, i, only=None):
 
 def gen_source(rng, kind, idx, tier="quick", only=None):
     src = {"kind": kind, "idx": idx}
+    if rng.random() < 0.1:
+        src["pct"] = True
     n = rng.randrange(0, 7 if tier == "quick" else 30)
     if kind in ("good", "trunc", "readerr", "stdin"):
         src["recs"] = [gen_rec(rng, i, only) for i in range(n if kind == "good" or n else 3)]
@@ -302,6 +304,8 @@ def build_source(w, src, descs):
     kind = src["kind"]
     i = src["idx"]
     base = "/simfs/in/s%d" % i
+    if src.get("pct"):
+        base = "/simfs/in/s%d-100%%25 %%41" % i  # a name that looks like URL escapes is just a name
     if kind == "missing":
         return base + ".records", []
     if kind == "empty":
